@@ -242,6 +242,8 @@ def main():
                 print(f['verus_output'])
         for u in r['undecided']:
             print('  UNDECIDED %s: %s' % (u['reason'], u['detail']))
+        for h in r.get('lost_hints', []):
+            print('  LOST-HINT (anchor not found, hint dropped): %s' % h)
         slow = sorted([f for f in r['functions'] if f['time_us']], key=lambda f: -f['time_us'])[:5]
         for f in slow:
             print('  slow: %s %.2fs rlimit=%s %s' % (f['function'], f['time_us'] / 1e6, f['rlimit'], 'ok' if f['success'] else 'FAILED'))
